@@ -206,6 +206,9 @@ func (m *MsgSendToExternal) ValidateBasic() (err error) {
 	if !m.BridgeFee.IsValid() || !m.BridgeFee.IsPositive() {
 		return sdkerrors.ErrInvalidRequest.Wrap("invalid bridge fee")
 	}
+	if _, err = m.Amount.Amount.SafeAdd(m.BridgeFee.Amount); err != nil {
+		return sdkerrors.ErrInvalidRequest.Wrap("amount plus bridge fee overflows")
+	}
 	return nil
 }
 
